@@ -41,6 +41,7 @@ class Loop:
         self.inv, self.modifies, self.snapshot = inv, modifies, snapshot
         self.fresh = fresh or {}
         self.lemmas, self.on_head, self.on_exit, self.ghost_step = lemmas, on_head, on_exit, ghost_step
+        self.rebind = ()            # names (set by the contract after construction: L.rebind = ('args',)) havocked at the head although the body only MUTATES the object they are bound to (python list / set); needs Loop.fresh[name]
         self.keep = set(keep)       # syntactically assigned names that are NOT havocked (loop-local temporaries are fine to havoc; this is for names the contract proves are re-bound to the same object)
 
 
@@ -139,6 +140,15 @@ class Runtime:
         except Exception:
             pass
         return exc
+
+    # T6
+    def listcomp(self, it, elt, cond):
+        f = getattr(it, '_vc_listcomp', None)
+        if f is not None:
+            return f(elt, cond)
+        if cond is None:
+            return [elt(x) for x in it]
+        return [elt(x) for x in it if cond(x)]
 
     # T3
     def super_(self, obj):
@@ -348,7 +358,9 @@ class FunctionRun:
         t0 = time.time()
         try:
             self.loc = instrument.locate(c.target, self.repo)
-            code, stats, text = instrument.instrument(self.loc, tuple(c.loops.keys()))
+            code, stats, text = instrument.instrument(self.loc, tuple(c.loops.keys()),
+                                                      rebind={k: tuple(getattr(L, 'rebind', ())) for k, L in c.loops.items()},
+                                                      comprehensions=getattr(c, 'comprehensions', False))
             self.stats = stats
             self.text = text
         except OutOfSubset as e:
@@ -364,6 +376,7 @@ class FunctionRun:
             g['np'] = npspec.module()
             g['__vc_locals__'] = builtins.locals
             g.update(c.env(vc))
+            vc.hooks = dict(c.hooks(s)) if hasattr(c, 'hooks') else {}
             rt = Runtime(vc, c, s)
             g['__vc__'] = rt
             s.__dict__['rt'] = rt
